@@ -6,7 +6,7 @@
 EXTENDS GatewayAuth, Json, SequencesExt
 
 VARIABLE case
-Init == case \in AuthCases \/ case \in ScopeCases \/ case \in ResumeCases \/ case \in SeqCases
+Init == case \in AuthCases \/ case \in ScopeCases \/ case \in ResumeCases \/ case \in SeqCases \/ case \in RaceCases
 Next == UNCHANGED case
 Spec == Init /\ [][Next]_case
 
@@ -37,6 +37,15 @@ SeqSound == IsSeq => \A k \in 1..Len(case.steps) :
                 /\ ScopeProp(st.cert, case.reg, st.path, acc, ServedAt(case.steps, case.reg, k))
                 /\ CompleteProp(st.cert, case.reg, st.path, acc, ServedAt(case.steps, case.reg, k))
 
+\* overlapping handshakes: the stateless property on every step, with the outcome of the (possibly verdict-sharing) procedure
+IsRace    == case.kind = "race"
+RaceSound == IsRace => \A k \in 1..Len(case.steps) :
+                 LET st == case.steps[k]  acc == AcceptedAt(case.steps, case.reg, k) IN
+                 /\ AuthProp(st.cert, case.reg, acc)
+                 /\ CompleteProp(st.cert, case.reg, st.path, acc, IF acc THEN Route(st.cert.cn, st.path) ELSE <<>>)
+
+ASSUME ndJsonSerialize("cases_race.ndjson", SetToSeq(RaceCases))
+ASSUME PrintT(<<"race", [n |-> Cardinality(RaceCases)]>>)
 ASSUME ndJsonSerialize("cases_seq.ndjson", SetToSeq(SeqCases))
 ASSUME PrintT(<<"seq", [n |-> Cardinality(SeqCases)]>>)
 ASSUME ndJsonSerialize("cases_auth.ndjson",  SetToSeq(AuthCases))
